@@ -305,8 +305,11 @@ def same(exact, fl, tol=1e-12):
     ex = Fraction(exact) if not isinstance(exact, Fraction) else exact
     if not np.isfinite(fl):
         return False
-    if common.bits_needed(ex) <= 40:
-        return Fraction(float(fl)) == ex
+    if Fraction(float(fl)) == ex:
+        return True
+    # a short exact value does not mean that the floats were exact on the way: a leaky memory gains two bits per step
+    # and is rounded once it passes 53, and a later cancellation can bring the exact result back to a few bits while
+    # the float keeps an error of an ulp or two (seen at C08 seed 3: -0.7656250000000002 for -49/64)
     return common.close(float(fl), ex, tol)
 
 
